@@ -1,5 +1,6 @@
 import ObiVerif.Model.Iter
 import ObiVerif.Lemmas.Reseq
+import ObiVerif.Lemmas.Iter
 /-!
 # C03 — no record is lost, duplicated or reordered between reader and writer (property theorems)
 
@@ -40,5 +41,305 @@ theorem sort_numbered_flatten (v : Nat → List Rec) (n : Nat) (ks : List Nat) (
   · simp only [Numbered, List.map_map, List.length_map, List.length_range]
     exact List.map_id' _
   · simp [flatten, inFlat, List.flatMap_map]
+
+theorem inFlat_flatMap (v : Nat → List Rec) (n : Nat) (f : Rec → List Rec) :
+    inFlat (fun k => (v k).flatMap f) n = (inFlat v n).flatMap f := by
+  simp [inFlat, List.flatMap_assoc]
+
+theorem inFlat_filter (v : Nat → List Rec) (n : Nat) (p : Rec → Bool) :
+    inFlat (fun k => (v k).filter p) n = (inFlat v n).filter p := by
+  simp [inFlat, List.filter_flatMap]
+
+/-- the input of every theorem below is an `IsStream` -/
+theorem input_isStream (v : Nat → List Rec) (n : Nat) (ks : List Nat) (hp : ks.Perm (List.range n)) :
+    IsStream (ks.map fun k => (k, v k)) n (inFlat v n) := isStream_keyed v n ks hp
+
+/-- contents used by the non-vacuity examples: batch 0 = [10,11,12], batch 1 empty, batch 2 = [13,14] -/
+def exV : Nat → List Rec := fun k => if k = 0 then [10, 11, 12] else if k = 1 then [] else [13, 14]
+
+/-! ## 8. Pool -/
+
+/-- `Pool`: whatever the interleaving `arr` of the pooled iterators, the batches are renumbered
+0,1,2,… and the records are exactly those pushed, in push order -/
+theorem pool_spec (arr : List Batch) :
+    Numbered (pool arr) ∧ flatten (pool arr) = arr.flatMap (·.2) := pool_keys_flat arr
+
+/-! ## 9. IBatchOver -/
+
+theorem batchOver_spec (size : Nat) (hsize : 0 < size) (data : List Rec) :
+    let out := batchOver size (data.length + 1) data 0
+    Numbered out ∧ flatten out = data ∧ (∀ b ∈ out, 0 < b.2.length ∧ b.2.length ≤ size) ∧
+    ∀ i (h : i + 1 < out.length), (out[i]).2.length = size := by
+  intro out
+  obtain ⟨h1, h2, h3, _⟩ := batchOver_aux size hsize (data.length + 1) data 0 (by omega)
+  refine ⟨?_, h2, h3.1, h3.2⟩
+  show out.map (·.1) = List.range out.length
+  rw [List.range_eq_range']; exact h1
+
+example : let out := batchOver 2 6 [1, 2, 3, 4, 5] 0
+    Numbered out ∧ flatten out = [1, 2, 3, 4, 5] ∧ (∀ b ∈ out, 0 < b.2.length ∧ b.2.length ≤ 2) ∧
+    ∀ i (h : i + 1 < out.length), (out[i]).2.length = 2 :=
+  batchOver_spec 2 (by decide) [1, 2, 3, 4, 5]
+
+/-! ## 4. MakeISliceWorker -/
+
+/-- batch numbers are kept, emptied batches included -/
+theorem workerStage_keyed (f : Rec → List Rec) (v : Nat → List Rec) (ks : List Nat) :
+    workerStage f (ks.map fun k => (k, v k)) = ks.map fun k => (k, (v k).flatMap f) := by
+  simp [workerStage]
+
+/-- for every arrival order `ks'` of the worker stage's output, sorting restores the input order -/
+theorem worker_spec (f : Rec → List Rec) (v : Nat → List Rec) (n : Nat) (ks ks' : List Nat)
+    (hp : ks.Perm (List.range n)) (hp' : ks'.Perm ks) :
+    workerStage f (ks.map fun k => (k, v k)) = (ks.map fun k => (k, (v k).flatMap f)) ∧
+    Numbered (sortBatches (ks'.map fun k => (k, (v k).flatMap f))) ∧
+    flatten (sortBatches (ks'.map fun k => (k, (v k).flatMap f))) = (inFlat v n).flatMap f := by
+  refine ⟨workerStage_keyed f v ks, ?_⟩
+  have := sort_numbered_flatten (fun k => (v k).flatMap f) n ks' (hp'.trans hp)
+  rwa [inFlat_flatMap] at this
+
+/-- same, the arrival order being any permutation of the list of batches the workers push -/
+theorem worker_spec_perm (f : Rec → List Rec) (v : Nat → List Rec) (n : Nat) (ks : List Nat)
+    (hp : ks.Perm (List.range n)) (arr' : List Batch)
+    (hperm : arr'.Perm (workerStage f (ks.map fun k => (k, v k)))) :
+    Numbered (sortBatches arr') ∧ flatten (sortBatches arr') = (inFlat v n).flatMap f := by
+  rw [workerStage_keyed] at hperm
+  have h := isStream_of_perm_keyed (fun k => (v k).flatMap f) n ks hp arr' hperm
+  have e : (List.range n).flatMap (fun k => (v k).flatMap f) = (inFlat v n).flatMap f :=
+    inFlat_flatMap v n f
+  rw [e] at h
+  exact ⟨h.sort.1, h.sort.2.2⟩
+
+example : workerStage (fun r => [r, r + 100]) ([1, 0, 2].map fun k => (k, exV k)) =
+      ([1, 0, 2].map fun k => (k, (exV k).flatMap fun r => [r, r + 100])) ∧
+    Numbered (sortBatches ([2, 1, 0].map fun k => (k, (exV k).flatMap fun r => [r, r + 100]))) ∧
+    flatten (sortBatches ([2, 1, 0].map fun k => (k, (exV k).flatMap fun r => [r, r + 100]))) =
+      (inFlat exV 3).flatMap fun r => [r, r + 100] :=
+  worker_spec _ exV 3 [1, 0, 2] [2, 1, 0] (by decide) (by decide)
+
+/-! ## 2. FilterEmpty -/
+
+theorem filterEmpty_spec (v : Nat → List Rec) (n : Nat) (ks : List Nat) (hp : ks.Perm (List.range n)) :
+    let out := filterEmpty (ks.map fun k => (k, v k))
+    Numbered out ∧ flatten out = inFlat v n ∧ ∀ b ∈ out, b.2 ≠ [] := by
+  intro out
+  obtain ⟨h1, h2, h3⟩ := filterEmpty_keys_flat (ks.map fun k => (k, v k))
+  rw [(sort_numbered_flatten v n ks hp).2] at h2
+  exact ⟨h1, h2, h3⟩
+
+example : let out := filterEmpty ([1, 0, 2].map fun k => (k, exV k))
+    Numbered out ∧ flatten out = inFlat exV 3 ∧ ∀ b ∈ out, b.2 ≠ [] :=
+  filterEmpty_spec exV 3 [1, 0, 2] (by decide)
+
+/-! ## 1. Rebatch -/
+
+theorem rebatch_spec (size : Nat) (hsize : 0 < size) (v : Nat → List Rec) (n : Nat) (ks : List Nat)
+    (hp : ks.Perm (List.range n)) :
+    let out := rebatch size (ks.map fun k => (k, v k))
+    Numbered out ∧ flatten out = inFlat v n ∧ (∀ b ∈ out, 0 < b.2.length ∧ b.2.length ≤ size) ∧
+    ∀ i (h : i + 1 < out.length), (out[i]).2.length = size := by
+  intro out
+  have h := (input_isStream v n ks hp).rebatch size hsize
+  exact ⟨h.1, h.2.1, h.2.2.1, h.2.2.2⟩
+
+example : let out := rebatch 2 ([1, 0, 2].map fun k => (k, exV k))
+    Numbered out ∧ flatten out = inFlat exV 3 ∧ (∀ b ∈ out, 0 < b.2.length ∧ b.2.length ≤ 2) ∧
+    ∀ i (h : i + 1 < out.length), (out[i]).2.length = 2 :=
+  rebatch_spec 2 (by decide) exV 3 [1, 0, 2] (by decide)
+
+/-- `Rebatch` fed with any arrival permutation `arr` of a stream `src` that was pushed with numbers
+0,1,2,… (the output of every combinator of this file) -/
+theorem rebatch_after (size : Nat) (hsize : 0 < size) (src arr : List Batch) (hsrc : Numbered src)
+    (hperm : arr.Perm src) :
+    let out := rebatch size arr
+    Numbered out ∧ flatten out = flatten src ∧ (∀ b ∈ out, 0 < b.2.length ∧ b.2.length ≤ size) ∧
+    ∀ i (h : i + 1 < out.length), (out[i]).2.length = size := by
+  intro out
+  have h := (isStream_of_perm_numbered src arr hsrc hperm).rebatch size hsize
+  exact ⟨h.1, h.2.1, h.2.2.1, h.2.2.2⟩
+
+/-! ## 5. FilterOn -/
+
+theorem filterOn_spec (p : Rec → Bool) (size : Nat) (hsize : 0 < size) (v : Nat → List Rec) (n : Nat)
+    (ks : List Nat) (hp : ks.Perm (List.range n)) :
+    let out := filterOn p size (ks.map fun k => (k, v k))
+    Numbered out ∧ flatten out = (inFlat v n).filter p ∧
+    (∀ b ∈ out, 0 < b.2.length ∧ b.2.length ≤ size) ∧
+    ∀ i (h : i + 1 < out.length), (out[i]).2.length = size := by
+  intro out
+  have h := (input_isStream v n ks hp).filterOn p size hsize
+  exact ⟨h.1, h.2.1, h.2.2.1, h.2.2.2⟩
+
+example : let out := filterOn (fun r => r % 2 == 0) 2 ([1, 0, 2].map fun k => (k, exV k))
+    Numbered out ∧ flatten out = (inFlat exV 3).filter (fun r => r % 2 == 0) ∧
+    (∀ b ∈ out, 0 < b.2.length ∧ b.2.length ≤ 2) ∧
+    ∀ i (h : i + 1 < out.length), (out[i]).2.length = 2 :=
+  filterOn_spec _ 2 (by decide) exV 3 [1, 0, 2] (by decide)
+
+/-! ## 3. DivideOn -/
+
+theorem divideOn_spec (p : Rec → Bool) (size : Nat) (hsize : 0 < size) (v : Nat → List Rec) (n : Nat)
+    (ks : List Nat) (hp : ks.Perm (List.range n)) :
+    let t := (divideOn p size (ks.map fun k => (k, v k))).1
+    let f := (divideOn p size (ks.map fun k => (k, v k))).2
+    Numbered t ∧ Numbered f ∧
+    flatten t = (inFlat v n).filter p ∧ flatten f = (inFlat v n).filter (fun r => !p r) ∧
+    (∀ b ∈ t, 0 < b.2.length ∧ b.2.length ≤ size) ∧
+    (∀ i (h : i + 1 < t.length), (t[i]).2.length = size) ∧
+    (∀ b ∈ f, 0 < b.2.length ∧ b.2.length ≤ size) ∧
+    (∀ i (h : i + 1 < f.length), (f[i]).2.length = size) := by
+  intro t f
+  obtain ⟨ht, hf⟩ := divideOn_chunked p size hsize (ks.map fun k => (k, v k))
+  rw [(sort_numbered_flatten v n ks hp).2] at ht hf
+  exact ⟨ht.1, hf.1, ht.2.1, hf.2.1, ht.2.2.1, ht.2.2.2, hf.2.2.1, hf.2.2.2⟩
+
+example : let t := (divideOn (fun r => r % 2 == 0) 2 ([1, 0, 2].map fun k => (k, exV k))).1
+    let f := (divideOn (fun r => r % 2 == 0) 2 ([1, 0, 2].map fun k => (k, exV k))).2
+    Numbered t ∧ Numbered f ∧
+    flatten t = (inFlat exV 3).filter (fun r => r % 2 == 0) ∧
+    flatten f = (inFlat exV 3).filter (fun r => !(r % 2 == 0)) ∧
+    (∀ b ∈ t, 0 < b.2.length ∧ b.2.length ≤ 2) ∧
+    (∀ i (h : i + 1 < t.length), (t[i]).2.length = 2) ∧
+    (∀ b ∈ f, 0 < b.2.length ∧ b.2.length ≤ 2) ∧
+    (∀ i (h : i + 1 < f.length), (f[i]).2.length = 2) :=
+  divideOn_spec _ 2 (by decide) exV 3 [1, 0, 2] (by decide)
+
+/-! ## 6. Distribute -/
+
+theorem distribute_spec (cls : Rec → Nat) (size : Nat) (hsize : 0 < size) (v : Nat → List Rec) (n : Nat)
+    (ks : List Nat) (hp : ks.Perm (List.range n)) (key : Nat) :
+    let out := distributeKey cls size key (ks.map fun k => (k, v k))
+    Numbered out ∧ flatten out = (inFlat v n).filter (fun r => cls r == key) ∧
+    (∀ b ∈ out, 0 < b.2.length ∧ b.2.length ≤ size) ∧
+    ∀ i (h : i + 1 < out.length), (out[i]).2.length = size := by
+  intro out
+  have h := distributeKey_chunked cls size hsize key (ks.map fun k => (k, v k))
+  rw [(sort_numbered_flatten v n ks hp).2] at h
+  exact ⟨h.1, h.2.1, h.2.2.1, h.2.2.2⟩
+
+/-- every record is routed to exactly one class stream — the one of its class — as many times as it
+occurs in the input -/
+theorem distribute_routing (cls : Rec → Nat) (size : Nat) (hsize : 0 < size) (v : Nat → List Rec)
+    (n : Nat) (ks : List Nat) (hp : ks.Perm (List.range n)) (key : Nat) (r : Rec) :
+    (flatten (distributeKey cls size key (ks.map fun k => (k, v k)))).count r =
+      if cls r = key then (inFlat v n).count r else 0 := by
+  rw [(distribute_spec cls size hsize v n ks hp key).2.1]
+  split
+  · rename_i h
+    exact List.count_filter (by simpa using h)
+  · rename_i h
+    apply List.count_eq_zero.mpr
+    intro hm
+    have := (List.mem_filter.mp hm).2
+    exact h (by simpa using this)
+
+example : let out := distributeKey (fun r => r % 3) 2 1 ([1, 0, 2].map fun k => (k, exV k))
+    Numbered out ∧ flatten out = (inFlat exV 3).filter (fun r => r % 3 == 1) ∧
+    (∀ b ∈ out, 0 < b.2.length ∧ b.2.length ≤ 2) ∧
+    ∀ i (h : i + 1 < out.length), (out[i]).2.length = 2 :=
+  distribute_spec _ 2 (by decide) exV 3 [1, 0, 2] (by decide) 1
+
+/-! ## 7. Concat -/
+
+/-- a further stream of `Concat`: (number of batches, contents, arrival order) -/
+abbrev StreamDesc := Nat × (Nat → List Rec) × List Nat
+
+/-- the arrival list described by a `StreamDesc` -/
+def StreamDesc.arr (s : StreamDesc) : List Batch := s.2.2.map fun k => (k, s.2.1 k)
+
+theorem concat2_spec (n0 : Nat) (v0 : Nat → List Rec) (ks0 : List Nat) (hp0 : ks0.Perm (List.range n0))
+    (n1 : Nat) (v1 : Nat → List Rec) (ks1 : List Nat) (hp1 : ks1.Perm (List.range n1)) :
+    let out := concat (ks0.map fun k => (k, v0 k)) [ks1.map fun k => (k, v1 k)]
+    (out.map (·.1)).Perm (List.range (n0 + n1)) ∧ Numbered (sortBatches out) ∧
+    (sortBatches out).length = n0 + n1 ∧
+    flatten (sortBatches out) = inFlat v0 n0 ++ inFlat v1 n1 := by
+  intro out
+  have h := concat_isStream n0 v0 ks0 hp0 [(n1, v1, ks1)] (by simpa using hp1)
+  simp only [List.map_cons, List.map_nil, List.sum_cons, List.sum_nil, Nat.add_zero,
+    List.flatMap_cons, List.flatMap_nil, List.append_nil] at h
+  exact ⟨h.keys_perm, h.sort.1, h.sort.2.1, h.sort.2.2⟩
+
+/-- `Concat` of a first stream and any list of further streams (any of them possibly empty): the
+numbers pushed are a permutation of `0..n0+n1+…-1`, and once sorted the records are those of the first
+stream, then of the second, … each in its own order -/
+theorem concat_spec (n0 : Nat) (v0 : Nat → List Rec) (ks0 : List Nat) (hp0 : ks0.Perm (List.range n0))
+    (others : List StreamDesc) (hps : ∀ s ∈ others, s.2.2.Perm (List.range s.1)) :
+    let out := concat (ks0.map fun k => (k, v0 k)) (others.map StreamDesc.arr)
+    (out.map (·.1)).Perm (List.range (n0 + (others.map (·.1)).sum)) ∧ Numbered (sortBatches out) ∧
+    (sortBatches out).length = n0 + (others.map (·.1)).sum ∧
+    flatten (sortBatches out) = inFlat v0 n0 ++ others.flatMap fun s => inFlat s.2.1 s.1 := by
+  intro out
+  have h := concat_isStream n0 v0 ks0 hp0 others hps
+  exact ⟨h.keys_perm, h.sort.1, h.sort.2.1, h.sort.2.2⟩
+
+example : let out := concat ([1, 0, 2].map fun k => (k, exV k)) [[].map fun k => (k, exV k), [1, 0].map fun k => (k, exV k)]
+    (out.map (·.1)).Perm (List.range (3 + (0 + (2 + 0)))) ∧ Numbered (sortBatches out) ∧
+    (sortBatches out).length = 3 + (0 + (2 + 0)) ∧
+    flatten (sortBatches out) = inFlat exV 3 ++ (inFlat exV 0 ++ (inFlat exV 2 ++ [])) :=
+  concat_spec 3 exV [1, 0, 2] (by decide) [(0, exV, []), (2, exV, [1, 0])] (by decide)
+
+example : let out := concat ([].map fun k => (k, exV k)) [[1, 0, 2].map fun k => (k, exV k)]
+    (out.map (·.1)).Perm (List.range (0 + 3)) ∧ Numbered (sortBatches out) ∧
+    (sortBatches out).length = 0 + 3 ∧
+    flatten (sortBatches out) = inFlat exV 0 ++ inFlat exV 3 :=
+  concat2_spec 0 exV [] (by decide) 3 exV [1, 0, 2] (by decide)
+
+/-! ## 10. PairTo -/
+
+theorem pairTo_spec (size : Nat) (hsize : 0 < size)
+    (va : Nat → List Rec) (na : Nat) (ka : List Nat) (hpa : ka.Perm (List.range na))
+    (vb : Nat → List Rec) (nb : Nat) (kb : List Nat) (hpb : kb.Perm (List.range nb))
+    (hlen : (inFlat va na).length = (inFlat vb nb).length) :
+    let out := pairTo size (ka.map fun k => (k, va k)) (kb.map fun k => (k, vb k))
+    out.map (·.1) = List.range out.length ∧
+    out.flatMap (·.2) = (inFlat va na).zip (inFlat vb nb) := by
+  intro out
+  have ha : Chunked size (rebatch size (sortBatches (ka.map fun k => (k, va k)))) (inFlat va na) := by
+    rw [sort_perm va na ka hpa]
+    exact (input_isStream va na (List.range na) (List.Perm.refl _)).rebatch size hsize
+  have hb : Chunked size (rebatch size (sortBatches (kb.map fun k => (k, vb k)))) (inFlat vb nb) := by
+    rw [sort_perm vb nb kb hpb]
+    exact (input_isStream vb nb (List.range nb) (List.Perm.refl _)).rebatch size hsize
+  exact pair_chunked size _ _ _ _ ha hb hlen
+
+/-- second side of the `PairTo` example: 5 records cut differently (4 + 1) -/
+def exW : Nat → List Rec := fun k => if k = 0 then [20, 21, 22, 23] else [24]
+
+example : let out := pairTo 2 ([1, 0, 2].map fun k => (k, exV k)) ([0, 1].map fun k => (k, exW k))
+    out.map (·.1) = List.range out.length ∧
+    out.flatMap (·.2) = (inFlat exV 3).zip (inFlat exW 2) :=
+  pairTo_spec 2 (by decide) exV 3 [1, 0, 2] (by decide) exW 2 [0, 1] (by decide) (by decide)
+
+/-! ## 11. A composed pipeline -/
+
+/-- reader → `MakeISliceWorker f` → `FilterOn p size` → `Rebatch size'`, the batches being delivered
+in an arbitrary order between any two stages: no record lost, duplicated or reordered -/
+theorem pipeline_ok (f : Rec → List Rec) (p : Rec → Bool) (size size' : Nat) (hsize : 0 < size)
+    (hsize' : 0 < size') (v : Nat → List Rec) (n : Nat) (ks : List Nat) (hp : ks.Perm (List.range n))
+    (arr1 : List Batch) (h1 : arr1.Perm (workerStage f (ks.map fun k => (k, v k))))
+    (arr2 : List Batch) (h2 : arr2.Perm (filterOn p size arr1)) :
+    let out := rebatch size' arr2
+    Numbered out ∧ flatten out = ((inFlat v n).flatMap f).filter p ∧
+    (∀ b ∈ out, 0 < b.2.length ∧ b.2.length ≤ size') ∧
+    ∀ i (h : i + 1 < out.length), (out[i]).2.length = size' := by
+  intro out
+  rw [workerStage_keyed] at h1
+  have s1 := isStream_of_perm_keyed (fun k => (v k).flatMap f) n ks hp arr1 h1
+  have e : (List.range n).flatMap (fun k => (v k).flatMap f) = (inFlat v n).flatMap f :=
+    inFlat_flatMap v n f
+  rw [e] at s1
+  have c2 := s1.filterOn p size hsize
+  have s2 := c2.isStream_of_perm h2
+  have c3 := s2.rebatch size' hsize'
+  exact ⟨c3.1, c3.2.1, c3.2.2.1, c3.2.2.2⟩
+
+example : let out := rebatch 3 (filterOn (fun r => r % 2 == 0) 2
+      (workerStage (fun r => [r, r + 100]) ([1, 0, 2].map fun k => (k, exV k)))).reverse
+    Numbered out ∧
+    flatten out = ((inFlat exV 3).flatMap fun r => [r, r + 100]).filter (fun r => r % 2 == 0) ∧
+    (∀ b ∈ out, 0 < b.2.length ∧ b.2.length ≤ 3) ∧
+    ∀ i (h : i + 1 < out.length), (out[i]).2.length = 3 :=
+  pipeline_ok _ _ 2 3 (by decide) (by decide) exV 3 [1, 0, 2] (by decide)
+    _ (List.Perm.refl _) _ (List.reverse_perm _)
 
 end ObiVerif.Props.C03
